@@ -252,6 +252,19 @@ def _h12(cn, rep):
 def _h4(facts, rep):
     allowed = {B + 'choose_next': 'hands the removed crossing out (H2)', B + 'append_prepare': 'removes the crossing being appended',
                B + 'remove_crossings': 'caller takes the crossings over (symmetric builder)'}
+    # a private method that only the allowed sites (or such methods) call is a step of them
+    rcg = facts.rev_callgraph()
+    changed = True
+    while changed:
+        changed = False
+        for key, b in facts.bodies.items():
+            if key in allowed or b.kind == 'Closure' or not key.startswith(B) or b.d.get('vis', 'pub') == 'pub':
+                continue
+            callers = rcg.get(key, ())
+            roots = {(facts.bodies[c].d.get('root') or c) if c in facts.bodies else c for c in callers}
+            if callers and all(r in allowed for r in roots):
+                allowed[key] = 'private step of %s' % sorted(x.split('::')[-1] for x in roots)[0]
+                changed = True
     k = 0
     for key, b in sorted(facts.bodies.items()):
         root = b.d.get('root') or key
